@@ -10,10 +10,13 @@ use std::rc::Rc;
 use std::sync::Arc;
 
 use trustfall_core::interpreter::execution::interpret_ir;
-use trustfall_core::interpreter::{EdgeInfo, ResolveInfo, VertexInfo};
-use trustfall_core::ir::{Argument, FieldRef, IRQuery, IRQueryComponent};
+use trustfall_core::interpreter::{
+    Adapter, AsVertex, ContextIterator, ContextOutcomeIterator, EdgeInfo, ResolveEdgeInfo, ResolveInfo, VertexInfo,
+    VertexIterator,
+};
+use trustfall_core::ir::{Argument, EdgeParameters, FieldRef, FieldValue, IRQuery, IRQueryComponent};
 
-use crate::engine::adapter::{CallKind, CallSig, Hooks, Info, LoggingAdapter, TableAdapter};
+use crate::engine::adapter::{CallKind, Info, TableAdapter, Vtx};
 use crate::engine::common::*;
 use crate::engine::data_gen::DataTable;
 use crate::engine::ir_sexp::{ir_to_sexp, op_parts, vid_num};
@@ -24,6 +27,64 @@ use tfharness::framework::*;
 use tfharness::rng::Rng;
 use tfharness::sexp::{Sexp, hex, unhex};
 
+
+// ------------------------------------------------------------------------------------------------
+// a thin wrapper adapter: one callback per adapter call (with the call's hint object), no event log
+
+type OnCall = Rc<dyn Fn(CallKind, Option<&str>, &str, Info<'_>)>;
+
+struct Watch {
+    inner: TableAdapter,
+    on_call: OnCall,
+}
+
+impl Adapter<'static> for Watch {
+    type Vertex = Vtx;
+
+    fn resolve_starting_vertices(
+        &self,
+        edge_name: &Arc<str>,
+        parameters: &EdgeParameters,
+        resolve_info: &ResolveInfo,
+    ) -> VertexIterator<'static, Self::Vertex> {
+        (self.on_call)(CallKind::Start, None, edge_name, Info::Vertex(resolve_info));
+        self.inner.resolve_starting_vertices(edge_name, parameters, resolve_info)
+    }
+
+    fn resolve_property<V: AsVertex<Self::Vertex> + 'static>(
+        &self,
+        contexts: ContextIterator<'static, V>,
+        type_name: &Arc<str>,
+        property_name: &Arc<str>,
+        resolve_info: &ResolveInfo,
+    ) -> ContextOutcomeIterator<'static, V, FieldValue> {
+        (self.on_call)(CallKind::Property, Some(type_name), property_name, Info::Vertex(resolve_info));
+        self.inner.resolve_property(contexts, type_name, property_name, resolve_info)
+    }
+
+    fn resolve_neighbors<V: AsVertex<Self::Vertex> + 'static>(
+        &self,
+        contexts: ContextIterator<'static, V>,
+        type_name: &Arc<str>,
+        edge_name: &Arc<str>,
+        parameters: &EdgeParameters,
+        resolve_info: &ResolveEdgeInfo,
+    ) -> ContextOutcomeIterator<'static, V, VertexIterator<'static, Self::Vertex>> {
+        (self.on_call)(CallKind::Neighbors, Some(type_name), edge_name, Info::Edge(resolve_info));
+        self.inner.resolve_neighbors(contexts, type_name, edge_name, parameters, resolve_info)
+    }
+
+    fn resolve_coercion<V: AsVertex<Self::Vertex> + 'static>(
+        &self,
+        contexts: ContextIterator<'static, V>,
+        type_name: &Arc<str>,
+        coerce_to_type: &Arc<str>,
+        resolve_info: &ResolveInfo,
+    ) -> ContextOutcomeIterator<'static, V, bool> {
+        (self.on_call)(CallKind::Coercion, Some(type_name), coerce_to_type, Info::Vertex(resolve_info));
+        self.inner.resolve_coercion(contexts, type_name, coerce_to_type, resolve_info)
+    }
+}
 
 // ------------------------------------------------------------------------------------------------
 // worlds of the hints group: the C01 worlds + "tag-only" variants of their queries
@@ -165,20 +226,17 @@ fn eval_required(args: &[Sexp]) -> Option<String> {
     let captured: Rc<RefCell<Option<String>>> = Rc::new(RefCell::new(None));
     let cap = captured.clone();
     let irq: IRQuery = q.ir_query.clone();
-    let hooks = Hooks {
-        on_call: Some(Box::new(move |c: &CallSig, info: Info<'_>| {
-            if c.kind != CallKind::Start {
-                return;
-            }
-            if let Info::Vertex(ri) = info {
-                let mut out = BTreeMap::new();
-                walk_required(ri, &irq.root_component, &mut out);
-                *cap.borrow_mut() = Some(render_required(&out));
-            }
-        })),
-        on_context: None,
-    };
-    let adapter = LoggingAdapter::with_hooks(TableAdapter::new(&schema.gen_schema, DataTable::default()), hooks);
+    let on_call: OnCall = Rc::new(move |kind, _ty, _name, info: Info<'_>| {
+        if kind != CallKind::Start {
+            return;
+        }
+        if let Info::Vertex(ri) = info {
+            let mut out = BTreeMap::new();
+            walk_required(ri, &irq.root_component, &mut out);
+            *cap.borrow_mut() = Some(render_required(&out));
+        }
+    });
+    let adapter = Watch { inner: TableAdapter::new(&schema.gen_schema, DataTable::default()), on_call };
     // building the pipeline may panic on known C09 defects (F-4); the capture happens before that
     let res = guarded(|| interpret_ir(Arc::new(adapter), q.clone(), real_args(&qargs)).map(|_| ()));
     if let Ok(Err(e)) = &res {
@@ -232,44 +290,39 @@ fn run_req(args: &[Sexp]) -> Option<Result<(String, Vec<ReqViolation>, usize), S
     imported_tag_sites(&q.ir_query.root_component, &mut imported);
     let (v1, n1, nav1) = (violations.clone(), ncalls.clone(), nav.clone());
     let irq: IRQuery = q.ir_query.clone();
-    let hooks = Hooks {
-        on_call: Some(Box::new(move |c: &CallSig, info: Info<'_>| match (c.kind, info) {
-            (CallKind::Start, Info::Vertex(ri)) => {
-                let mut out = BTreeMap::new();
-                walk_required(ri, &irq.root_component, &mut out);
-                *nav1.borrow_mut() = out;
+    let on_call: OnCall = Rc::new(move |kind, type_name, name, info: Info<'_>| match (kind, info) {
+        (CallKind::Start, Info::Vertex(ri)) => {
+            let mut out = BTreeMap::new();
+            walk_required(ri, &irq.root_component, &mut out);
+            *nav1.borrow_mut() = out;
+        }
+        (CallKind::Property, Info::Vertex(ri)) => {
+            *n1.borrow_mut() += 1;
+            let vid = vid_num(ri.vid());
+            let list = required_names(ri);
+            if !list.iter().any(|p| p == name) {
+                let class = if imported.contains(&(vid, name.to_string())) { "imported-tag" } else { "other" };
+                v1.borrow_mut().push(ReqViolation {
+                    key: format!("property-not-required:{class}"),
+                    detail: format!(
+                        "resolve_property({}.{name}) at vid {vid}: required_properties() = {list:?}",
+                        type_name.unwrap_or("?")
+                    ),
+                });
             }
-            (CallKind::Property, Info::Vertex(ri)) => {
-                *n1.borrow_mut() += 1;
-                let ri: &ResolveInfo = ri;
-                let vid = vid_num(ri.vid());
-                let list = required_names(ri);
-                if !list.iter().any(|p| *p == c.name) {
-                    let class = if imported.contains(&(vid, c.name.clone())) { "imported-tag" } else { "other" };
+            // the list seen by the call = the list reached by navigation from the root
+            if let Some(navlist) = nav1.borrow().get(&vid) {
+                if *navlist != list {
                     v1.borrow_mut().push(ReqViolation {
-                        key: format!("property-not-required:{class}"),
-                        detail: format!(
-                            "resolve_property({}.{}) at vid {vid}: required_properties() = {list:?}",
-                            c.type_name.as_deref().unwrap_or("?"),
-                            c.name
-                        ),
+                        key: "required-list-differs-between-hint-objects".into(),
+                        detail: format!("vid {vid}: ResolveInfo {list:?} vs NeighborInfo {navlist:?}"),
                     });
                 }
-                // the list seen by the call = the list reached by navigation from the root
-                if let Some(navlist) = nav1.borrow().get(&vid) {
-                    if *navlist != list {
-                        v1.borrow_mut().push(ReqViolation {
-                            key: "required-list-differs-between-hint-objects".into(),
-                            detail: format!("vid {vid}: ResolveInfo {list:?} vs NeighborInfo {navlist:?}"),
-                        });
-                    }
-                }
             }
-            _ => {}
-        })),
-        on_context: None,
-    };
-    let adapter = LoggingAdapter::with_hooks(p.adapter(), hooks);
+        }
+        _ => {}
+    });
+    let adapter = Watch { inner: p.adapter(), on_call };
     let answer = execute(Arc::new(adapter), q, &r.args);
     if let Answer::ArgsErr(_) = answer {
         return Some(Err(answer.render()));
